@@ -501,8 +501,10 @@ def line_buffer_bounded_stmt : Prop := ∃ N, ∀ inp : List UInt8, lineBuffered
 
 /-- FALSE for the code as it is: `reader.ReadString('\n')` (lookup_protocol_v1.go:41) has no maximum line length;
 `N + 1` bytes without a newline are all buffered. Open known finding `unbounded-line-read` (replayed on every run:
-harness `TestVerifE4Unbounded`; the HTTP side, `io.ReadAll(req.Body)` in internal/http_api/req_params.go:21, is
-the sibling finding `unbounded-http-body-read`). -/
+harness `TestVerifE4Unbounded`). The HTTP sibling `unbounded-http-body-read` (`io.ReadAll(req.Body)` in the former
+`internal/http_api.NewReqParams`) is FIXED by /repo 894b9eb (F33: `NewReqParams` only calls `url.ParseQuery`); the same
+harness replays it and a reproduction is a VIOLATION. Note that `lineBuffered` is the model's definition of "bytes held":
+this theorem is a statement about the model, the daemon's memory growth is test evidence. -/
 theorem line_buffer_bounded_false : ¬ line_buffer_bounded_stmt := by
   intro ⟨N, h⟩
   have hr : ∀ n, readLine (List.replicate n (65 : UInt8)) = none := by
